@@ -1,6 +1,7 @@
 import XcpModel.Pool
 import XcpModel.ParfilePool
 import XcpProofs.PoolInv
+import XcpProofs.PoolFInv
 import XcpProofs.ParfileInv
 /-! # C20 — open descriptors stay bounded regardless of how many files are copied
 
@@ -63,5 +64,10 @@ theorem parfile_bound_is_attained :
   cases hr : Parfile.run (Parfile.init [1, 1, 1] 2 false) [.take 0, .take 1] with
   | none => rw [hr] at h; simp at h
   | some s => rw [hr] at h; exact ⟨s, ⟨_, hr⟩, by simpa using h⟩
+
+/-- the bound also holds when block jobs FAIL and when the dispatcher stops with an error at any moment (`Xcp.PoolF`) -/
+theorem parblock_open_handles_bounded_with_failures (files : List Nat) (cap workers : Nat) (fs : Bool) (s : PoolF.St)
+    (h : PoolF.Reachable files cap workers fs s) : PoolF.openCount s ≤ cap + workers + 1 :=
+  PoolF.open_bound files cap workers fs s h
 
 end Xcp.C20
